@@ -28,6 +28,90 @@ Fixpoint hxl (l : list Byte.byte) : list N :=
 Definition hx (h : hexs) : list N := hxl (of_hex h).
 Arguments hx h%hex.
 
+(* A whole trace is written as ONE string literal (elaborating thousands of small
+   literals is what made case files slow): labels separated by ';', one opcode
+   character, a direction digit (0 = CT, 1 = TC) where the label has one, then
+   the payload (hex bytes for the byte-level LTS, a decimal length for the
+   length abstraction).  t<ns> tick, y reply, n<p> drain, xu / xd close up / down,
+   w<d><p> write, s<d> shutdown, r<d><p> read, e<d> read-eof, d<d><p> deliver,
+   c<d> closewrite, a<d> abort.  Anything else makes the whole trace None. *)
+Fixpoint toks (l cur : list Byte.byte) : list (list Byte.byte) :=
+  match l with
+  | [] => match cur with [] => [] | _ => [rev cur] end
+  | c :: r => if Byte.to_N c =? 59 then rev cur :: toks r [] else toks r (c :: cur)
+  end.
+Fixpoint dec (l : list Byte.byte) (acc : N) : option N :=
+  match l with
+  | [] => Some acc
+  | c :: r => let n := Byte.to_N c in if (48 <=? n) && (n <=? 57) then dec r (10 * acc + (n - 48)) else None
+  end.
+Definition dir_of (c : Byte.byte) : option dir :=
+  let n := Byte.to_N c in if n =? 48 then Some CT else if n =? 49 then Some TC else None.
+Definition is_hex (l : list Byte.byte) : bool :=
+  forallb (fun c => let n := Byte.to_N c in ((48 <=? n) && (n <=? 57)) || ((97 <=? n) && (n <=? 102))) l
+  && N.even (N.of_nat (length l)).
+
+Section Tok.
+Context {P L : Type}.
+Variable payload : list Byte.byte -> option P.
+Variables (mkTick : Z -> L) (mkReply : L) (mkDrain : P -> L) (mkClose : side -> L)
+          (mkWrite mkRead mkDeliver : dir -> P -> L) (mkShut mkEOF mkCW mkAbort : dir -> L).
+Definition with_payload (pl : list Byte.byte) (f : P -> L) : option L :=
+  match payload pl with Some p => Some (f p) | None => None end.
+Definition only (pl : list Byte.byte) (x : L) : option L := match pl with [] => Some x | _ => None end.
+Definition label_of_tok (t : list Byte.byte) : option L :=
+  match t with
+  | [] => None
+  | op :: rest =>
+    let o := Byte.to_N op in
+    if o =? 116 then match dec rest 0 with Some n => Some (mkTick (Z.of_N n)) | None => None end
+    else if o =? 121 then only rest mkReply
+    else if o =? 110 then with_payload rest mkDrain
+    else if o =? 120 then
+      match rest with
+      | [c] => if Byte.to_N c =? 117 then Some (mkClose Up) else if Byte.to_N c =? 100 then Some (mkClose Down) else None
+      | _ => None
+      end
+    else match rest with
+         | [] => None
+         | dch :: pl =>
+           match dir_of dch with
+           | None => None
+           | Some d =>
+             if o =? 119 then with_payload pl (mkWrite d)
+             else if o =? 115 then only pl (mkShut d)
+             else if o =? 114 then with_payload pl (mkRead d)
+             else if o =? 101 then only pl (mkEOF d)
+             else if o =? 100 then with_payload pl (mkDeliver d)
+             else if o =? 99 then only pl (mkCW d)
+             else if o =? 97 then only pl (mkAbort d)
+             else None
+           end
+         end
+  end.
+Fixpoint labels_of_toks (ts : list (list Byte.byte)) : option (list L) :=
+  match ts with
+  | [] => Some []
+  | t :: r => match label_of_tok t, labels_of_toks r with
+              | Some l, Some ls => Some (l :: ls)
+              | _, _ => None
+              end
+  end.
+End Tok.
+
+Definition ptrace (h : hexs) : option (list label) :=
+  labels_of_toks (fun pl => if is_hex pl then Some (hxl pl) else None)
+    LTick LReply LDrain LClose (fun d p => LD d (Write p)) (fun d p => LD d (Read p)) (fun d p => LD d (Deliver p))
+    (fun d => LD d Shutdown) (fun d => LD d ReadEOF) (fun d => LD d CloseWrite) (fun d => LD d Abort)
+    (toks (of_hex h) []).
+Arguments ptrace h%hex.
+Definition patrace (h : hexs) : option (list alabel) :=
+  labels_of_toks (fun pl => match pl with [] => None | _ => dec pl 0 end)
+    ATick AReply ADrain AClose (fun d p => AD d (AWr p)) (fun d p => AD d (ARd p)) (fun d p => AD d (ADel p))
+    (fun d => AD d AShut) (fun d => AD d AREOF) (fun d => AD d ACW) (fun d => AD d AAb)
+    (toks (of_hex h) []).
+Arguments patrace h%hex.
+
 Fixpoint bad_from {A} (f : A -> bool) (i : N) (l : list A) : list N :=
   match l with
   | [] => []
@@ -53,7 +137,7 @@ Record obs := {
 Record ccase := {
   cc_mode : N; cc_wellformed : bool; cc_grace : Z; cc_fr : framing;
   cc_early : list N; cc_skip : list N; cc_kept : list N;
-  cc_trace : list label; cc_obs : obs
+  cc_trace : option (list label); cc_obs : obs
 }.
 Definition dob (d : dir) (o : obs) : dobs := match d with CT => o_ct o | TC => o_tc o end.
 
@@ -105,14 +189,21 @@ Definition skip_ok (mode : N) (fr : framing) (avail skip : N) : bool :=
 
 Definition cmodel_ok (c : ccase) : bool :=
   cc_wellformed c && skip_ok (cc_mode c) (cc_fr c) (len (o_sent (o_tc (cc_obs c)))) (len (cc_skip c)) &&
-  match run (tables_shape (cc_grace c)) (init (cc_early c) (cc_skip c) (cc_kept c)) (cc_trace c) with
-  | Some s => final_ok (cc_mode c) (cc_grace c) s (cc_obs c)
+  match cc_trace c with
   | None => false
+  | Some tr =>
+    match run (tables_shape (cc_grace c)) (init (cc_early c) (cc_skip c) (cc_kept c)) tr with
+    | Some s => final_ok (cc_mode c) (cc_grace c) s (cc_obs c)
+    | None => false
+    end
   end.
 
 (* diagnostics for a refused trace: index of the first refused label *)
 Definition crefusal (c : ccase) : option N :=
-  refused_at (tables_shape (cc_grace c)) (init (cc_early c) (cc_skip c) (cc_kept c)) (cc_trace c) 0.
+  match cc_trace c with
+  | None => Some 0
+  | Some tr => refused_at (tables_shape (cc_grace c)) (init (cc_early c) (cc_skip c) (cc_kept c)) tr 0
+  end.
 
 (* ---------------------------------------------------------- length level *)
 Record adobs := { a_sent : N; a_recv : N; a_diff : option N; a_shut : bool; a_eof : bool; a_eof_early : bool }.
@@ -123,7 +214,7 @@ Record aobs := {
 Record acase := {
   ac_mode : N; ac_wellformed : bool; ac_grace : Z; ac_fr : framing;
   ac_early : N; ac_skip : N; ac_kept : N;
-  ac_trace : list alabel; ac_obs : aobs
+  ac_trace : option (list alabel); ac_obs : aobs
 }.
 
 (* a_diff = None: the harness found the received stream to be a prefix of the
@@ -154,13 +245,20 @@ Definition afinal_ok (mode : N) (grace : Z) (s : astate) (o : aobs) : bool :=
 
 Definition amodel_ok (c : acase) : bool :=
   ac_wellformed c && skip_ok (ac_mode c) (ac_fr c) (a_sent (a_tc (ac_obs c))) (ac_skip c) &&
-  match arun (tables_shape (ac_grace c)) (ainit (ac_early c) (ac_skip c) (ac_kept c)) (ac_trace c) with
-  | Some s => afinal_ok (ac_mode c) (ac_grace c) s (ac_obs c)
+  match ac_trace c with
   | None => false
+  | Some tr =>
+    match arun (tables_shape (ac_grace c)) (ainit (ac_early c) (ac_skip c) (ac_kept c)) tr with
+    | Some s => afinal_ok (ac_mode c) (ac_grace c) s (ac_obs c)
+    | None => false
+    end
   end.
 
 Definition arefusal (c : acase) : option N :=
-  arefused_at (tables_shape (ac_grace c)) (ainit (ac_early c) (ac_skip c) (ac_kept c)) (ac_trace c) 0.
+  match ac_trace c with
+  | None => Some 0
+  | Some tr => arefused_at (tables_shape (ac_grace c)) (ainit (ac_early c) (ac_skip c) (ac_kept c)) tr 0
+  end.
 
 (* native scenarios (production listener and dialer, no wrappers): oracle only *)
 Definition nmodel_ok (o : aobs) : bool := true.
